@@ -128,6 +128,8 @@ def generate(tier, rng):
         out.append("DE any %s" % hexs(b"\xa1\x00" * dpt + b"\x00"))
         out.append("DE ign %s" % hexs(b"\x81" * dpt + b"\x00" + b"\x01"))
         out.append("DE seq(seq(i8)) %s" % hexs(b"\x81" * dpt + b"\x00"))
+    for kind in ("chain", "nest", "list"):
+        for dpt in (1, 100, 255, 256, 257, 300, 1000): out.append("SERD %s %d" % (kind, dpt))
     n_any = 20000 if tier == "thorough" else 600
     for _ in range(n_any):
         b = gen_item(rng, 3)
@@ -174,11 +176,13 @@ def uses_ign(d):
 
 def nontrivial(line, impl):
     t = line.split()
+    if t[0] == "SERD": return True
     if t[0] == "SER": return len(impl.split(";")[0]) > 2
     return not impl.endswith("@0")
 
 def classify(line, impl):
     t = line.split()
+    if t[0] == "SERD": return "SERD:" + t[1]
     d = sg.parse_expr(t[1])
     res = "ok" if (";ok:" in impl or impl.startswith("ok:")) else ":".join(impl.split("@")[0].split(";")[-1].split(":")[:2])
     return "%s:%s:%s" % (t[0], d[0], res)
